@@ -57,6 +57,21 @@ MCLS = ['odd', 'odd', 'even', 'even', 'pow2', 'near', 'one', 'rand']
 ECLS = ['tiny', 'ones', 'win', 'winfull', 'sparse', 'limbs', 'rand']
 BCLS = ['small', 'm-1', 'mult', 'big', 'neg', 'rand']
 
+def c14_priority(rng, tier, env):
+    """cases C14 replays on every build variant: modulus sizes on both sides of every REDC / POWM / BINV threshold of *that variant's* tuning table
+    (the enumerated part of specs() only reaches them after thousands of small cases; A90: n == REDC_1_TO_REDC_2_THRESHOLD on the haswell table)"""
+    th = env.th
+    ts = [th.get(k) for k in ('REDC_1_TO_REDC_2_THRESHOLD', 'REDC_2_TO_REDC_N_THRESHOLD', 'REDC_1_TO_REDC_N_THRESHOLD', 'POWM_THRESHOLD', 'MUL_KARATSUBA_THRESHOLD', 'SQR_KARATSUBA_THRESHOLD', 'SQR_TOOM3_THRESHOLD')]
+    ts = sorted({t for t in ts if t and 2 < t < 600})
+    for mn in gen.around(ts, 1, None, (-1, 0, 1)):
+        for mc in ('odd', 'odd', 'even'):
+            for ec in ('rand', 'winfull', 'limbs'):
+                if ec in ECLS: yield ('powm', mn, mc, ec, 'rand', rng.randint(0, 1), rng.getrandbits(48))
+    bt = th.get('BINV_NEWTON_THRESHOLD', 300)
+    if bt and bt < 1200:
+        for n_ in (bt - 1, bt, bt + 1, bt + 3):
+            yield ('binv', n_, 'odd', rng.getrandbits(48))
+
 def specs(rng, tier, wid, nw, env):
     q = tier == 'quick'; th = env.th
     ts = [th.get(k) for k in ('REDC_1_TO_REDC_2_THRESHOLD', 'REDC_2_TO_REDC_N_THRESHOLD', 'REDC_1_TO_REDC_N_THRESHOLD', 'POWM_THRESHOLD')]
